@@ -45,6 +45,7 @@ func c14Prelude() []*model.N {
 		model.Fun("p", []string{"t", "v"}, model.Print(model.Id("t")), model.Return(model.Id("v"))),
 		model.Fun("g2", []string{"a", "b"}, model.Print(model.Str("in-g2")), model.Return(model.Id("a"))),
 		model.Fun("uf", nil),
+		model.Fun("mkg", nil, model.Return(model.Id("g2"))),
 		model.Var("w", model.Num(0)),
 		model.Var("arr", model.Arr(model.Num(10), model.Num(20), model.Num(30))),
 		model.Var("ob", model.Obj([]string{"k"}, []*model.N{model.Num(5)})),
@@ -216,6 +217,16 @@ func C14(c *fw.Ctx) {
 			run("call-builtin", model.CallN(model.BiAppend, P(model.Arr(model.Num(7))), P(a.Mk()), P(b.Mk())))
 			tag = 0
 			run("call-callee", model.Call(P(model.Id("g2")), P(a.Mk()), P(b.Mk())))
+			tag = 0
+			run("call-property-of-probed-object", model.Call(model.Prop(P(model.Obj([]string{"f"}, []*model.N{model.Id("g2")})), "f"), P(a.Mk()), P(b.Mk())))
+			tag = 0
+			run("call-element-of-probed-array", model.Call(model.Idx(P(model.Arr(model.Id("g2"))), P(model.Num(0))), P(a.Mk()), P(b.Mk())))
+			tag = 0
+			run("call-property-chain", model.Call(model.Prop(model.Prop(P(model.Obj([]string{"in"}, []*model.N{model.Obj([]string{"f"}, []*model.N{model.Id("g2")})})), "in"), "f"), P(a.Mk()), P(b.Mk())))
+			tag = 0
+			run("call-result-of-probed-call", model.Call(model.Call(P(model.Id("mkg"))), P(a.Mk()), P(b.Mk())))
+			tag = 0
+			run("call-builtin-property", model.Call(model.Prop(P(model.Obj([]string{"m"}, []*model.N{model.Id(model.BiMax)})), "m"), P(a.Mk()), P(b.Mk())))
 			tag = 0
 			run("call-arity", model.Call(P(model.Id("g2")), model.Num(1)))
 			tag = 0
